@@ -3,6 +3,8 @@ package chainsim
 import (
 	"encoding/json"
 	"fmt"
+	"gitlab.com/aquachain/aquachain/common/verifhook"
+	"sync/atomic"
 
 	"verifsim/kernel"
 	"verifsim/refmodel"
@@ -32,6 +34,26 @@ type Plan struct {
 	AllImages  bool   `json:"all_images,omitempty"` // enumerate every boundary
 	SampleSeed uint64 `json:"sample_seed,omitempty"`
 	GoMaxProcs int    `json:"gomaxprocs,omitempty"`
+	// OrderSeed decides the iteration order of the node's maps whose order
+	// reaches the disk (0 = bytewise ascending).
+	OrderSeed uint64 `json:"order_seed,omitempty"`
+}
+
+// InstallMapOrder makes the plan's order seed the owner of those orders for
+// the duration of a run; call the returned function at the end.
+func InstallMapOrder(seed uint64) func() {
+	if seed == 0 {
+		verifhook.MapOrder = nil
+		return func() {}
+	}
+	var calls atomic.Uint64
+	verifhook.MapOrder = func(site string, n int, swap func(i, j int)) {
+		rng := kernel.NewRNG(kernel.Mix(seed, kernel.HashString(site), calls.Add(1)))
+		for i := n - 1; i > 0; i-- {
+			swap(i, rng.Intn(i+1))
+		}
+	}
+	return func() { verifhook.MapOrder = nil }
 }
 
 func DecodePlan(raw json.RawMessage) (any, error) {
